@@ -52,6 +52,17 @@ func EngineFor(prop string) func(*Plan) *RunResult {
 		if p == nil {
 			p = Profiles()["C01"]
 		}
+		if plan.Prop == "C13" && plan.Index > 0 && len(plan.Ops) == 0 {
+			if ops, ok := SweepOps(plan.Index-1, Thorough); ok {
+				sp := &Plan{Prop: plan.Prop, Profile: plan.Profile, Seed: plan.Seed, Ops: ops}
+				r := RunSeq(sp, p)
+				r.Evals = 1
+				r.NonTriv = true
+				r.Stats.Probes["exhaustive-small-set-case"]++
+				r.Hash = resultHash(r)
+				return r
+			}
+		}
 		r := RunSeq(plan, p)
 		r.Evals = 1
 		r.NonTriv = nonTrivial(plan.Prop, r)
